@@ -254,8 +254,12 @@ def _constraint(G, cyc, seed):
     return cands[seed % len(cands)]
 
 
-def _mk(model, edges, wt="int", k=None, cons=None, ign=None, starts=None, ends=None, opts=None, cov=None):
-    return dict(model=model, edges=edges, wt=wt, k=k, cons=cons, ign=ign, starts=starts, ends=ends, opts=opts or {}, cov=cov)
+def _mk(model, edges, wt="int", k=None, cons=None, ign=None, starts=None, ends=None, opts=None, cov=None, covlen=None):
+    """covlen = [fraction, [[u, v, length], ...]]: length coverage of the subpath constraints (DAG models)"""
+    d = dict(model=model, edges=edges, wt=wt, k=k, cons=cons, ign=ign, starts=starts, ends=ends, opts=opts or {}, cov=cov)
+    if covlen is not None:
+        d["covlen"] = covlen
+    return d
 
 
 def _instances(tier):
@@ -317,6 +321,18 @@ def _instances(tier):
             if not quick:
                 yield _mk("kFlowDecomp", E, "int", 3, cons=con, cov=cov)
                 yield _mk("kMinPathError", E, "int", 2, cons=con, cov=cov)
+    # a 3-edge constraint with LENGTH coverage 0.4 on a path whose middle edge is long: one path through b->c alone satisfies it; the options
+    # that turn constraints / safe paths into fixed variables must not demand more than that
+    EL = [["x", "a", 1, 2], ["a", "b", 1, 5], ["e", "b", 2, 1], ["b", "g", 1, 1], ["b", "c", 2, 8], ["h", "c", 4, 1], ["c", "f", 2, 1], ["c", "d", 4, 5], ["d", "y", 4, 2]]
+    conL = [[["a", "b"], ["b", "c"], ["c", "d"]]]
+    lens = [[u, v, l] for u, v, f, l in EL]
+    for model, k in (("MinFlowDecomp", None), ("kFlowDecomp", 3), ("kMinPathError", 3)) if not quick else (("MinFlowDecomp", None), ("kFlowDecomp", 3)):
+        yield _mk(model, [[u, v, f] for u, v, f, l in EL], "int", k, cons=conL, covlen=[0.4, lens])
+    # a subset constraint across a merge node behind a cycle: it costs a third walk; the guessed-weights shortcut must respect it
+    EC = [["s", "a", 2], ["s", "b", 5], ["a", "x", 2], ["x", "a", 2], ["a", "m", 2], ["b", "m", 5], ["m", "c", 2], ["m", "d", 5], ["c", "t", 2], ["d", "t", 5]]
+    yield _mk("MinFlowDecompCycles", EC, "int", cons=[[["a", "m"], ["m", "d"]]])
+    if not quick:
+        yield _mk("kFlowDecompCycles", EC, "int", 3, cons=[[["a", "m"], ["m", "d"]]])
     # figure-eight: the walk s a b c a b t re-enters the SCC edge a->b, so a safe sequence holds one edge twice; every rotation of the
     # insertion order of the edges (the column order of the edge variables differs from the order along the walk)
     F8 = [["c", "a", 2], ["a", "b", 4], ["b", "c", 2], ["s", "a", 2], ["b", "t", 2]]
@@ -454,6 +470,10 @@ def lib_verdict(inst, opts):
         kw["subset_constraints" if cyc else "subpath_constraints"] = [[tuple(e) for e in c] for c in inst["cons"]]
     if inst["cons"] and inst.get("cov") is not None:
         kw["subset_constraints_coverage" if cyc else "subpath_constraints_coverage"] = inst["cov"]
+    if inst["cons"] and inst.get("covlen") is not None:
+        for u, v, l in inst["covlen"][1]:
+            G[u][v]["length"] = l
+        kw.update(subpath_constraints_coverage_length=inst["covlen"][0], length_attr="length")
     if inst["ign"]:
         kw["elements_to_ignore"] = [tuple(e) for e in inst["ign"]]
     if inst["starts"]:
@@ -487,7 +507,7 @@ _cache = {}
 
 
 def _verdict(inst, opts):
-    key = repr((inst["model"], inst["edges"], inst["wt"], inst["k"], inst["cons"], inst.get("cov"), inst["ign"], inst["starts"], inst["ends"], sorted(opts.items())))
+    key = repr((inst["model"], inst["edges"], inst["wt"], inst["k"], inst["cons"], inst.get("cov"), inst.get("covlen"), inst["ign"], inst["starts"], inst["ends"], sorted(opts.items())))
     if key not in _cache:
         if len(_cache) > 4000:
             _cache.clear()
@@ -523,7 +543,7 @@ def _fmt(opts):
 
 
 def check(case):
-    inst = {k: case.get(k) for k in ("model", "edges", "wt", "k", "cons", "ign", "starts", "ends", "cov")}
+    inst = {k: case.get(k) for k in ("model", "edges", "wt", "k", "cons", "ign", "starts", "ends", "cov", "covlen")}
     ref = _verdict(inst, {})
     if ref["status"] == "ValueError":
         return dict(ok=None, nontrivial=False, what="instance rejected under default options (outside C05's domain): %s on %s" % (ref["err"], inst))
@@ -551,7 +571,7 @@ def check(case):
     return dict(ok=False, nontrivial=True,
                 fingerprint="%s: %s under {%s}" % (inst["model"], d, _fmt(blame)),
                 what="%s k=%s wt=%s edges=%s cons=%s cov=%s ign=%s starts=%s ends=%s opts=%s: default -> solved=%s obj=%s status=%s; with options -> solved=%s obj=%s status=%s %s"
-                     % (inst["model"], inst["k"], inst["wt"], inst["edges"], inst["cons"], inst.get("cov"), inst["ign"], inst["starts"], inst["ends"], opts,
+                     % (inst["model"], inst["k"], inst["wt"], inst["edges"], inst["cons"], inst.get("covlen") or inst.get("cov"), inst["ign"], inst["starts"], inst["ends"], opts,
                         ref["solved"], ref["obj"], ref["status"], got["solved"], got["obj"], got["status"], got["err"] or "")
                      + ("" if len(bad) == 1 else " | %d more option sets of this case differ: %s" % (len(bad) - 1, "; ".join("%s under {%s}" % (b[0], _fmt(b[2])) for b in bad[1:]))),
                 detail=dict(default=ref, options=got, blamed=blame, all_differing=[b[2] for b in bad]))
